@@ -17,7 +17,9 @@ BOUNDS = dict(
     quick=dict(dim="1..3", orbitals="1..3", hoppings="<=4 incl. R=0, repeated pairs, R and -R on different pairs, repeated (i,j,R) entries and both members of a conjugate pair (all layouts)", amplitudes="symbolic complex (2x2 symbolic complex blocks if spinful)",
                onsite="symbolic real (2x2 symbolic Hermitian blocks if spinful)", k="3 generic concrete k-points (|error|<=1e-12 for |data|<=1) and one fully symbolic k (exact)",
                builders="Haldane_ptb (new and 1.x API branch) vs Haldane_tbm with symbolic delta, hop1, hop2 and symbolic phi (unit-circle atoms)"),
-    thorough=dict(dim="1..3", orbitals="1..4", hoppings="<=6", amplitudes="as quick", onsite="as quick", k="5 concrete + symbolic", builders="as quick"))
+    thorough=dict(dim="1..3", orbitals="1..6 (spinful up to 4, i.e. 8x8)", hoppings="quick family plus a seeded family of 48 TBmodels and 120 PythTB model shapes: up to 10 hoppings (+ repeated entries and conjugate partners), "
+                  "R components in [-3,3], two lattice sets (the second strongly non-orthogonal), both PythTB layouts", amplitudes="as quick", onsite="as quick", k="5 concrete + symbolic",
+                  builders="as quick, plus every subset of {delta, hop1, hop2, phi} symbolic with the others at the builders' defaults, both pythtb API branches"))
 EXPLANATION = ("The real get_system_tb_py runs on duck-typed model objects (exactly the attributes it reads) whose hopping amplitudes and on-site terms are symbolic; "
                "the Hamiltonian it builds is evaluated with the code's own k-list transform and compared by z3 with a short statement of each library's documented H(k) "
                "(PythTB convention I / TBmodels convention 1 incl. orbital-position phases at concrete k; TBmodels convention 2 = R-only gauge at symbolic k), up to the diagonal gauge exp(2 pi i k.t); Ham(-R)=Ham(R)^+ is checked exactly. "
@@ -27,7 +29,7 @@ ASSUMPTIONS = ["TBmodels: model.hop is a dict R -> matrix; H(k) = sum over its k
                "PythTB: the hopping list may contain the same (i,j,R) several times and both members of a conjugate pair (i,j,R)/(j,i,-R) (set_hop(..., allow_conjugate_pair=True)): documented behaviour = the terms add up; "
                "no R=0 i==j hopping (rejected by pythtb itself)",
                "lattice vectors and orbital positions are concrete (enumerated), amplitudes symbolic"]
-OUTSIDE = ["whether reducing PythTB orbital positions into the home cell without shifting the hopping R-vectors preserves position-dependent quantities (energies are unaffected; only centres == positions mod lattice vectors is demanded)", "band energies themselves (eigenvalues): equality of H(k) up to a diagonal unitary gauge implies equal energies", "other bundled builders have no TBmodels twin (only the Haldane pair exists)",
+OUTSIDE = ["TBmodels models without a unit cell (uc=None): get_system_tb_py needs model.uc and raises AttributeError; TBmodels positions outside [0,1) never reach the importer (tbmodels maps them into the home cell itself)", "whether reducing PythTB orbital positions into the home cell without shifting the hopping R-vectors preserves position-dependent quantities (energies are unaffected; only centres == positions mod lattice vectors is demanded)", "band energies themselves (eigenvalues): equality of H(k) up to a diagonal unitary gauge implies equal energies", "other bundled builders have no TBmodels twin (only the Haldane pair exists)",
            "pythtb/tbmodels internals: the recording stand-ins implement the documented set_onsite/set_hop/add_hop/on_site semantics and are validated against the installed libraries on concrete parameters",
            "symbolic-k identity treats the phases of different R as independent unit-circle atoms and removes the PythTB position phases analytically; the full convention-I formula is checked at concrete k"]
 STUBS = ["pythtb stand-in module (__version__, Lattice, TBModel / tb_model with set_onsite, set_hop recording what the real classes expose: lat_vecs/_lat, get_orb_vecs/_orb, norb/_norb, hoppings/_hoppings, _nspin, _site_energies)",
@@ -60,12 +62,19 @@ class Duck:
 
 
 LATS = {1: [[1.3]], 2: [[1.0, 0.0], [0.5, 0.9]], 3: [[1.0, 0.1, 0.0], [0.2, 1.1, 0.0], [0.0, 0.3, 0.8]]}
-POS = {1: [[0.0], [0.25], [0.6], [0.85]], 2: [[1 / 3, 1 / 3], [2 / 3, 0.5], [0.1, 0.8], [0.55, 0.05]], 3: [[0.0, 0.0, 0.0], [0.25, 0.5, 0.125], [0.5, 0.75, 0.3], [0.7, 0.2, 0.9]], }
+POS = {1: [[0.0], [0.25], [0.6], [0.85], [0.4], [0.125]], 2: [[1 / 3, 1 / 3], [2 / 3, 0.5], [0.1, 0.8], [0.55, 0.05], [0.9, 0.35], [0.2, 0.15]],
+       3: [[0.0, 0.0, 0.0], [0.25, 0.5, 0.125], [0.5, 0.75, 0.3], [0.7, 0.2, 0.9], [0.1, 0.9, 0.6], [0.85, 0.4, 0.45]], }
+LATS_B = {1: [[0.7]], 2: [[1.0, 0.8], [-0.3, 1.1]], 3: [[1.0, 0.9, 0.0], [0.2, 0.6, 0.7], [-0.5, 0.3, 0.8]]}      # strongly non-orthogonal cells (thorough tier)
+_LATV = ["A"]
+
+
+def lat(dim):
+    return (LATS if _LATV[0] == "A" else LATS_B)[dim]
 
 
 def tbm_duck(dim, size, hop):
     m = Duck()
-    m.uc = np.array(LATS[dim])
+    m.uc = np.array(lat(dim))
     m.size = size
     m.pos = np.array(POS[dim][:size])
     m.hop = hop
@@ -82,13 +91,13 @@ def ptb_pos(dim, norb):
 def ptb_duck(layout, dim, norb, nspin, hops, onsite):
     """hops: list of (amp, i, j, R tuple)"""
     m = Duck()
-    lat, orb = np.array(LATS[dim]), np.array(ptb_pos(dim, norb))
+    lat_, orb = np.array(lat(dim)), np.array(ptb_pos(dim, norb))
     if layout == "1.x":
-        m._lat, m._orb, m._norb = lat, orb, norb
+        m._lat, m._orb, m._norb = lat_, orb, norb
         m._hoppings = [[a, i, j, np.array(R)] for a, i, j, R in hops]
     else:
-        m.lat_vecs, m.norb = lat, norb
-        m.get_orb_vecs = lambda cartesian=False: orb if not cartesian else orb @ lat
+        m.lat_vecs, m.norb = lat_, norb
+        m.get_orb_vecs = lambda cartesian=False: orb if not cartesian else orb @ lat_
         m.hoppings = []
         for a, i, j, R in hops:
             d = dict(amplitude=a, from_orbital=i, to_orbital=j)
@@ -201,7 +210,7 @@ def check_import(rec, system, dim, n, nspin, pos, Rs, href_conv, href_Ronly, tag
     # centres and lattice
     wc = np.array([pad3(np.array(p)) for p in pos for _ in range(nspin)])
     rl = np.eye(3)
-    rl[:dim, :dim] = np.array(LATS[dim])
+    rl[:dim, :dim] = np.array(lat(dim))
     dwc = np.asarray(system.wannier_centers_red, dtype=float) - wc if np.shape(system.wannier_centers_red) == wc.shape else np.full(wc.shape, 0.5)
     ok = np.allclose(dwc, np.round(dwc), atol=1e-12) and np.allclose(system.real_lattice, rl, atol=1e-12) and system.num_wann == n
     rec.concrete(f"{tag}: lattice, centres (equal to the orbital positions up to lattice vectors), num_wann", bool(ok), key=f"{tag} import: lattice / centres / num_wann differ from the model")
@@ -225,12 +234,13 @@ def sym_hop_mats(Rs, size):
     return {tuple(R): symvec(f"h{i}", (size, size), real=False) for i, R in enumerate(Rs)}
 
 
-def case_tbm(rec, dim, size, Rs, nkc):
+def case_tbm(rec, dim, size, Rs, nkc, latv="A"):
+    _LATV[0] = latv
     _quiet()
     hop = sym_hop_mats(Rs, size)
 
     def body(rec):
-        rec.witness = lambda env: dict(kind="tbm", dim=dim, size=size, Rs=[list(R) for R in Rs], hop=[env.arr(hop[tuple(R)]) for R in Rs], nkc=nkc)
+        rec.witness = lambda env: dict(kind="tbm", latv=latv, dim=dim, size=size, Rs=[list(R) for R in Rs], hop=[env.arr(hop[tuple(R)]) for R in Rs], nkc=nkc)
         model = tbm_duck(dim, size, {R: h.copy() for R, h in hop.items()})
         system = TB.get_system_tb_py(model, 'tbmodels')
         pos = POS[dim][:size]
@@ -250,13 +260,14 @@ def sym_ptb_data(hopspec, norb, nspin):
     return hops, onsite
 
 
-def case_ptb(rec, layout, dim, norb, nspin, hopspec, nkc):
+def case_ptb(rec, layout, dim, norb, nspin, hopspec, nkc, latv="A"):
+    _LATV[0] = latv
     _quiet()
     hops, onsite = sym_ptb_data(hopspec, norb, nspin)
     pos = ptb_pos(dim, norb)
 
     def body(rec):
-        rec.witness = lambda env: dict(kind="ptb", layout=layout, dim=dim, norb=norb, nspin=nspin, hopspec=[[i, j, list(R)] for i, j, R in hopspec],
+        rec.witness = lambda env: dict(kind="ptb", latv=latv, layout=layout, dim=dim, norb=norb, nspin=nspin, hopspec=[[i, j, list(R)] for i, j, R in hopspec],
                                        amps=[env.arr(np.asarray(a, dtype=object)) for a, *_ in hops], onsite=env.arr(onsite), nkc=nkc)
         model = ptb_duck(layout, dim, norb, nspin, [(a.copy() if isinstance(a, np.ndarray) else a, i, j, R) for a, i, j, R in hops], onsite.copy())
         with patched_modules(pythtb=fake_pythtb("1.9.0" if layout == "1.x" else "2.0.0")):
@@ -381,17 +392,19 @@ def ham_by_R(system):
     return {tuple(int(x) for x in r): Ham[i] for i, r in enumerate(system.rvec.iRvec)}
 
 
-def case_builders(rec, ptb_version):
+def case_builders(rec, ptb_version, symbolic=("delta", "hop1", "hop2", "phi")):
+    """the parameters named in `symbolic` are symbolic, the others are left at the builders' defaults"""
     _quiet()
     undo = shadow([MODELS])
     delta, hop1, hop2, phi = SymC.var("delta"), SymC.var("hop1"), SymC.var("hop2"), SymC.var("phi")
     c, s_ = phi.cos(), phi.sin()
+    kw = {k: v for k, v in dict(delta=delta, hop1=hop1, hop2=hop2, phi=phi).items() if k in symbolic}
 
     def body(rec):
-        rec.witness = lambda env: dict(kind="builders", delta=env.val(delta), hop1=env.val(hop1), hop2=env.val(hop2), cos_phi=env.val(c), sin_phi=env.val(s_))
+        rec.witness = lambda env: dict(kind="builders", symbolic=list(symbolic), delta=env.val(delta), hop1=env.val(hop1), hop2=env.val(hop2), cos_phi=env.val(c), sin_phi=env.val(s_))
         with patched_modules(pythtb=make_pythtb_standin(ptb_version), tbmodels=make_tbmodels_standin()):
-            mp = MODELS.Haldane_ptb(delta=delta, hop1=hop1, hop2=hop2, phi=phi)
-            mt = MODELS.Haldane_tbm(delta=delta, hop1=hop1, hop2=hop2, phi=phi)
+            mp = MODELS.Haldane_ptb(**kw)
+            mt = MODELS.Haldane_tbm(**kw)
             sp = TB.get_system_tb_py(mp, 'pythtb')
             st = TB.get_system_tb_py(mt, 'tbmodels')
         same_geo = np.allclose(sp.real_lattice, st.real_lattice, atol=1e-12) and np.allclose(sp.wannier_centers_red, st.wannier_centers_red, atol=1e-12) and sp.num_wann == st.num_wann
@@ -493,6 +506,40 @@ def case_validation(rec, seed):
 
 
 # ------------------------------------------------------------------------------------------------------------
+def random_specs(seed):
+    """thorough tier: seeded family of model shapes (the amplitudes stay symbolic): 1..6 orbitals, up to 10 hoppings, R components in [-3,3], repeated entries, conjugate pairs"""
+    import random
+    rng = random.Random(f"c32-{seed}")
+    tb, pt = [], []
+    for n in range(48):
+        dim, size = rng.choice([1, 2, 3]), rng.choice([1, 2, 3, 4, 5, 6])
+        Rs = []
+        for _ in range(rng.randint(1, 6)):
+            R = tuple(rng.randint(-3, 3) for _ in range(dim))
+            if R not in Rs:
+                Rs.append(R)
+            if rng.random() < 0.25 and tuple(-x for x in R) not in Rs:
+                Rs.append(tuple(-x for x in R))
+        tb.append((rng.choice("AB"), (dim, size, Rs)))
+    for n in range(120):
+        dim, norb = rng.choice([1, 2, 3]), rng.choice([1, 2, 3, 4, 5, 6])
+        hs = []
+        for _ in range(rng.randint(1, 10 if norb <= 4 else 7)):
+            i, j = rng.randrange(norb), rng.randrange(norb)
+            R = tuple(rng.randint(-3, 3) for _ in range(dim))
+            if i == j and not any(R):
+                R = tuple([1] + [0] * (dim - 1))
+            hs.append((i, j, R))
+            u = rng.random()
+            if u < 0.2:
+                hs.append((j, i, tuple(-x for x in R)))          # conjugate partner
+            elif u < 0.35:
+                hs.append((i, j, R))                              # the same entry again
+        nspin = rng.choice([1, 1, 2]) if norb <= 4 else 1
+        pt.append((rng.choice("AB"), rng.choice(["2.0", "1.x"]), nspin, (dim, norb, hs)))
+    return tb, pt
+
+
 def cases(tier, seed):
     q = tier == "quick"
     nkc = 3 if q else 5
@@ -518,6 +565,18 @@ def cases(tier, seed):
     if not q:
         ptb += [(3, 4, [(0, 3, (1, 0, 0)), (1, 2, (-1, 0, 0)), (0, 1, (0, 0, 0)), (1, 0, (0, -1, 1)), (3, 3, (0, 0, 1)), (2, 0, (1, 1, 1))]),
                 (2, 2, [(0, 1, (0, 0)), (0, 1, (1, 0)), (0, 1, (0, 1)), (0, 1, (-1, 0)), (0, 1, (0, -1)), (1, 1, (1, 1))])]
+    if not q:
+        rt, rp = random_specs(seed)
+        for latv, (dim, size, Rs) in rt:
+            out.append(Case(f"tbmodels[{latv}] dim={dim} size={size} R={Rs}", case_tbm, dict(dim=dim, size=size, Rs=Rs, nkc=nkc, latv=latv), timeout=3000))
+        for latv, layout, nspin, (dim, norb, hs) in rp:
+            out.append(Case(f"pythtb[{latv}] {layout} nspin={nspin} dim={dim} norb={norb} hops={hs}", case_ptb,
+                            dict(layout=layout, dim=dim, norb=norb, nspin=nspin, hopspec=hs, nkc=nkc, latv=latv), timeout=3000))
+        names = ("delta", "hop1", "hop2", "phi")
+        for ver in ("2.0.0", "1.9.0"):
+            for mask in range(15):                       # every proper subset of symbolic parameters, the rest at the builders' defaults
+                sub = tuple(n for b, n in enumerate(names) if mask >> b & 1)
+                out.append(Case(f"builders Haldane_ptb({ver}) vs Haldane_tbm, symbolic {sub or '()'} others default", case_builders, dict(ptb_version=ver, symbolic=sub), timeout=3000))
     for layout in ("2.0", "1.x"):
         for nspin in (1, 2):
             for dim, norb, hs in ptb:
@@ -540,10 +599,11 @@ def replay(rec):
         if d == 0 and h1 == 0 and h2 == 0:
             d, h1, h2 = 0.37, -1.0, 0.15
         phi = math.atan2(w["sin_phi"], w["cos_phi"]) if (w["sin_phi"] or w["cos_phi"]) else 0.4
+        kw = {k: v for k, v in dict(delta=d, hop1=h1, hop2=h2, phi=phi).items() if k in w.get("symbolic", ["delta", "hop1", "hop2", "phi"])}
         with contextlib.redirect_stdout(buf), contextlib.redirect_stderr(buf), warnings.catch_warnings():
             warnings.simplefilter("ignore")
-            sp = TB.get_system_tb_py(MODELS.Haldane_ptb(d, h1, h2, phi), 'pythtb')
-            st = TB.get_system_tb_py(MODELS.Haldane_tbm(d, h1, h2, phi), 'tbmodels')
+            sp = TB.get_system_tb_py(MODELS.Haldane_ptb(**kw), 'pythtb')
+            st = TB.get_system_tb_py(MODELS.Haldane_tbm(**kw), 'tbmodels')
         hp, ht = ham_by_R(sp), ham_by_R(st)
         err = max(np.abs(hp.get(R, 0) - ht.get(R, 0)).max() for R in set(hp) | set(ht))
         k = np.array([[0.1, 0.2, 0.0]])
@@ -565,6 +625,7 @@ def replay(rec):
 
 def _replay_import(w, kc, buf):
     import contextlib, warnings
+    _LATV[0] = w.get("latv", "A")
     from symx.harness import unarr
     nkc = w["nkc"]
     with contextlib.redirect_stdout(buf), warnings.catch_warnings():
